@@ -106,12 +106,20 @@ Residual(b, p0, n, ord) ==
 
 FixedCoef == << <<>>, <<1>>, <<2, -1>>, <<3, -3, 1>>, <<4, -6, 4, -1>> >>
 
+\* ok = FALSE when a reconstructed sample leaves the 26-bit range (valid streams stay within 25
+\* bits; the bound also keeps every product inside TLC's 32-bit integers)
+SampleBound == 33554432         \* 2^25
 RestoreFixed(warm, res, ord) ==
   LET c == FixedCoef[ord + 1]
-  IN FoldLeft(LAMBDA s, e :
-        LET t    == Len(s)
+  IN FoldLeft(LAMBDA st, e :
+        IF ~st.ok THEN st ELSE
+        LET s    == st.s
+            t    == Len(s)
             pred == FoldLeft(LAMBDA a, j : a + c[j] * s[t + 1 - j], 0, Idx(1, ord))
-        IN Append(s, e + pred), warm, res)
+            v    == e + pred
+        IN IF v > SampleBound \/ v < -SampleBound \/ e > 2 * SampleBound * 16 \/ e < -(2 * SampleBound * 16)
+           THEN [st EXCEPT !.ok = FALSE] ELSE [s |-> Append(s, v), ok |-> TRUE],
+        [s |-> warm, ok |-> TRUE], res)
 
 \* Quantised LPC: s[t] = e[t] + floor( sum_j coefs[j] * s[t-j] / 2^shift ).
 \* 3-limb (8/8/rest) multiply-accumulate so that 32 taps x 15-bit coefficients x 26-bit
@@ -137,7 +145,10 @@ RestoreLpc(warm, res, coefs, shift) ==
             fits == IF shift >= 16 THEN TRUE ELSE (a2 < 2^(14 + shift) /\ a2 > -(2^(14 + shift)))
             pred == IF shift >= 16 THEN a2 \div 2^(shift - 16)
                     ELSE a2 * 2^(16 - shift) + (low \div 2^shift)
-        IN IF ~fits THEN [st EXCEPT !.ok = FALSE] ELSE [s |-> Append(s, e + pred), ok |-> TRUE],
+        IN IF ~fits THEN [st EXCEPT !.ok = FALSE]
+           ELSE IF pred > 1073741823 \/ pred < -1073741823 \/ e > 1073741823 \/ e < -1073741823
+                   \/ e + pred > SampleBound \/ e + pred < -SampleBound THEN [st EXCEPT !.ok = FALSE]
+           ELSE [s |-> Append(s, e + pred), ok |-> TRUE],
         [s |-> warm, ok |-> TRUE], res)
 
 ---------------------------------------------------------------------------
@@ -151,8 +162,10 @@ SubBad(p, why) ==
    start |-> p, end |-> p, samples |-> <<>>, res |-> NoRes, prec |-> 0, shift |-> 0, coefs |-> <<>>,
    warm |-> <<>>, type |-> 0]
 
-\* n = block size, sbps = sample width of this channel (side channels: +1)
-ParseSub(b, p, n, sbps) ==
+\* n = block size, sbps = sample width of this channel (side channels: +1); with decode = FALSE only the
+\* structure is parsed (no signal reconstruction: `samples` stays empty), which is what applies to
+\* components built by hand from arbitrary residuals
+ParseSubG(b, p, n, sbps, decode) ==
   LET pad    == GetU(b, p, 1)
       type   == GetU(b, p + 1, 6)
       wflag  == GetU(b, p + 7, 1)
@@ -177,9 +190,10 @@ ParseSub(b, p, n, sbps) ==
           LET warm == [i \in 1..ord |-> GetS(b, p1 + (i - 1) * ebps, ebps)]
               r    == TLCEval(Residual(b, p1 + ord * ebps, n, ord))
           IN IF ~r.ok THEN SubBad(p, "residual of fixed subframe undecodable") ELSE
-             LET s == TLCEval(RestoreFixed(warm, r.out, ord))
-             IN [base EXCEPT !.kind = "fixed", !.order = ord, !.end = r.p, !.res = r, !.warm = warm,
-                             !.samples = [i \in 1..n |-> shl(s[i])]]
+             LET s == IF decode THEN TLCEval(RestoreFixed(warm, r.out, ord)) ELSE [s |-> [i \in 1..n |-> 0], ok |-> TRUE]
+             IN IF ~s.ok THEN SubBad(p, "fixed prediction leaves the sample range") ELSE
+                [base EXCEPT !.kind = "fixed", !.order = ord, !.end = r.p, !.res = r, !.warm = warm,
+                             !.samples = [i \in 1..n |-> shl(s.s[i])]]
      ELSE IF type >= 32 THEN
        LET ord == type - 31
        IN IF ord > n THEN SubBad(p, "LPC order above block size") ELSE
@@ -193,12 +207,15 @@ ParseSub(b, p, n, sbps) ==
           IN IF pcode = 15 THEN SubBad(p, "invalid coefficient precision code 1111")
              ELSE IF shift < 0 THEN SubBad(p, "negative LPC shift")
              ELSE IF ~r.ok THEN SubBad(p, "residual of LPC subframe undecodable") ELSE
-             LET s == TLCEval(RestoreLpc(warm, r.out, coefs, shift))
-             IN IF ~s.ok THEN SubBad(p, "LPC prediction leaves the 32-bit range") ELSE
+             LET s == IF decode THEN TLCEval(RestoreLpc(warm, r.out, coefs, shift)) ELSE [s |-> [i \in 1..n |-> 0], ok |-> TRUE]
+             IN IF ~s.ok THEN SubBad(p, "LPC prediction leaves the sample range") ELSE
                 [base EXCEPT !.kind = "lpc", !.order = ord, !.end = r.p, !.res = r, !.warm = warm,
                              !.prec = prec, !.shift = shift, !.coefs = coefs,
                              !.samples = [i \in 1..n |-> shl(s.s[i])]]
      ELSE SubBad(p, "reserved subframe type")
+
+ParseSub(b, p, n, sbps) == ParseSubG(b, p, n, sbps, TRUE)
+ParseSubStruct(b, p, n, sbps) == ParseSubG(b, p, n, sbps, FALSE)
 
 ---------------------------------------------------------------------------
 (* Frame (RFC 9639 section 9)                                              *)
@@ -207,8 +224,9 @@ RateOfCode == << -1, 88200, 176400, 192000, 8000, 16000, 22050, 24000, 32000, 44
 
 FrameBad(at, why) == [ok |-> FALSE, why |-> why, at |-> at]
 
-\* at: 0-based byte offset of the frame; sBps: sample width from STREAMINFO (for code 000)
-ParseFrame(b, at, sBps) ==
+\* Frame header at 0-based byte offset `at`; sBps: sample width from STREAMINFO (for code 000).
+\* [ok, why, ..fields.., hdrLen (bytes incl. CRC-8), bodyAt (bit position of the first subframe)]
+ParseHeader(b, at, sBps) ==
   IF at + 6 > Len(b) THEN FrameBad(at, "fewer than 6 bytes left") ELSE
   LET p0       == at * 8
       sync     == GetU(b, p0, 14)
@@ -239,18 +257,28 @@ ParseFrame(b, at, sBps) ==
       nch      == IF chCode < 8 THEN chCode + 1 ELSE IF chCode <= 10 THEN 2 ELSE 0
       bps      == CASE bpsCode = 0 -> sBps [] bpsCode = 1 -> 8 [] bpsCode = 2 -> 12 [] bpsCode = 3 -> 0
                     [] bpsCode = 4 -> 16 [] bpsCode = 5 -> 20 [] bpsCode = 6 -> 24 [] bpsCode = 7 -> 32
-      side(c)  == (chCode = 8 /\ c = 2) \/ (chCode = 9 /\ c = 1) \/ (chCode = 10 /\ c = 2)
   IN IF sync # 16382 THEN FrameBad(at, "no sync code")
      ELSE IF ~num.ok THEN FrameBad(at, "malformed coded number")
      ELSE IF bsCode = 0 \/ srCode = 15 \/ nch = 0 \/ bps = 0 THEN FrameBad(at, "reserved header code")
      ELSE IF ~crc8ok THEN FrameBad(at, "header CRC-8 mismatch")
-     ELSE
-     LET subsR == FoldLeft(LAMBDA st, c :
+     ELSE [ok |-> TRUE, why |-> "", at |-> at, resv1 |-> resv1, strategy |-> strategy, bsCode |-> bsCode,
+           srCode |-> srCode, chCode |-> chCode, bpsCode |-> bpsCode, resv2 |-> resv2, num |-> num, n |-> n,
+           rateHdr |-> rateHdr, nch |-> nch, bps |-> bps, hdrLen |-> o3 + 1 - at, bodyAt |-> (o3 + 1) * 8]
+
+\* at: 0-based byte offset of the frame; sBps: sample width from STREAMINFO (for code 000)
+ParseFrame(b, at, sBps) ==
+  LET h == TLCEval(ParseHeader(b, at, sBps)) IN
+  IF ~h.ok THEN h ELSE
+  LET n       == h.n
+      chCode  == h.chCode
+      nch     == h.nch
+      side(c) == (chCode = 8 /\ c = 2) \/ (chCode = 9 /\ c = 1) \/ (chCode = 10 /\ c = 2)
+      subsR == FoldLeft(LAMBDA st, c :
                     IF ~st.ok THEN st ELSE
-                    LET s == TLCEval(ParseSub(b, st.p, n, bps + (IF side(c) THEN 1 ELSE 0)))
+                    LET s == TLCEval(ParseSub(b, st.p, n, h.bps + (IF side(c) THEN 1 ELSE 0)))
                     IN [p |-> s.end, ok |-> s.ok, why |-> s.why, subs |-> Append(st.subs, s)],
-                    [p |-> (o3 + 1) * 8, ok |-> TRUE, why |-> "", subs |-> <<>>], Idx(1, nch))
-     IN IF ~subsR.ok THEN FrameBad(at, subsR.why) ELSE
+                    [p |-> h.bodyAt, ok |-> TRUE, why |-> "", subs |-> <<>>], Idx(1, nch))
+  IN IF ~subsR.ok THEN FrameBad(at, subsR.why) ELSE
         LET pend    == subsR.p
             aligned == ((pend + 7) \div 8) * 8
             padOk   == GetU(b, pend, aligned - pend) = 0
@@ -267,9 +295,9 @@ ParseFrame(b, at, sBps) ==
                                   [i \in 1..n |-> (m2(i) - chan(2)[i]) \div 2] >>
         IN IF ~crc16ok THEN FrameBad(at, "frame CRC-16 mismatch") ELSE
            [ok |-> TRUE, why |-> "", at |-> at, next |-> fend + 2, len |-> fend + 2 - at,
-            resv1 |-> resv1, strategy |-> strategy, bsCode |-> bsCode, srCode |-> srCode,
-            chCode |-> chCode, bpsCode |-> bpsCode, resv2 |-> resv2, num |-> num, n |-> n,
-            rateHdr |-> rateHdr, nch |-> nch, bps |-> bps, hdrLen |-> o3 + 1 - at,
+            resv1 |-> h.resv1, strategy |-> h.strategy, bsCode |-> h.bsCode, srCode |-> h.srCode,
+            chCode |-> chCode, bpsCode |-> h.bpsCode, resv2 |-> h.resv2, num |-> h.num, n |-> n,
+            rateHdr |-> h.rateHdr, nch |-> nch, bps |-> h.bps, hdrLen |-> h.hdrLen,
             subs |-> subs, padOk |-> padOk, padBits |-> aligned - pend, decoded |-> dec]
 
 ---------------------------------------------------------------------------
